@@ -181,6 +181,8 @@ class HTTPProtocol(BaseGopherProtocol):
     def filenotfound(self, msg: str):
         self.wfile.write(b"HTTP/1.0 404 Not Found\r\n")
         self.wfile.write(b"Content-Type: text/html\r\n\r\n")
+        if self.requestparts[0] == "HEAD":
+            return
         self.wfile.write(
             b'<!DOCTYPE HTML PUBLIC "-//W3C//DTD HTML 4.0 Transitional//EN" "http://www.w3.org/TR/REC-html40/loose.dtd">'
         )
